@@ -1,12 +1,12 @@
-\* as paging_quick with canonical chain <= 3 blocks, all 55 filters, chunk 1/2/3/100
+\* expected VIOLATION (vacuity guard): a >= 3-page query with a page mixing canonical and pre-confirmed events is reachable
 CONSTANTS
-  MaxLen = 3
+  MaxLen = 2
   MaxReverts = 0
   MaxPc = 2
   Txs <- MCTxs
   Ev <- MCEv
-  FilterMenu <- MCFiltersAll
-  ChunkMenu = {1, 2, 3, 100}
+  FilterMenu <- MCFiltersQuick
+  ChunkMenu = {1, 2, 100}
   FromKinds = {"none", "num", "pre_confirmed"}
   ToKinds = {"none", "num", "pre_confirmed"}
   WithEvents = TRUE
@@ -17,7 +17,5 @@ CONSTANTS
   FixL1EventsClamp = FALSE
 INIT Init
 NEXT Next
-VIEW view
-INVARIANTS TypeOK PcContiguous ViewResolution
-PROPERTIES EventsAnswerFromChain BadTokenRejected EventsTagged PagesWellFormed ReadsArePure
+INVARIANTS WitnessNoPagingAcrossHead
 CHECK_DEADLOCK FALSE
